@@ -2,7 +2,7 @@
 //! finish / spill_record_batch_and_finish) on the real code; every finished file is read back and its rows
 //! counted; the SpillMetrics counters are read after every history.
 //! Output line: {"id", "files":[{"appended":[rows..], "some": bool, "read_back": rows}], "spilled_rows", "spill_count"}
-use arrow::array::{Int64Array, StringArray};
+use arrow::array::{Int64Array, StringArray, StringViewArray};
 use arrow::datatypes::{DataType, Field, Schema};
 use arrow::record_batch::RecordBatch;
 use datafusion::execution::runtime_env::RuntimeEnvBuilder;
@@ -20,13 +20,21 @@ pub fn main() {
     let n: usize = util::arg("--n").and_then(|s| s.parse().ok()).unwrap_or(100);
     let mut rng = StdRng::seed_from_u64(util::seed() * 31 + 7);
     let rt = tokio::runtime::Builder::new_multi_thread().worker_threads(2).enable_all().build().unwrap();
-    let schema = Arc::new(Schema::new(vec![Field::new("a", DataType::Int64, true), Field::new("s", DataType::Utf8, true)]));
+    let schema = Arc::new(Schema::new(vec![
+        Field::new("a", DataType::Int64, true),
+        Field::new("s", DataType::Utf8, true),
+        Field::new("v", DataType::Utf8View, true),
+    ]));
     let mut res: Vec<Value> = vec![];
     for h in 0..n {
         let env = RuntimeEnvBuilder::new().build_arc().unwrap();
         let ms = ExecutionPlanMetricsSet::new();
         let metrics = SpillMetrics::new(&ms, 0);
-        let mgr = SpillManager::new(env, metrics.clone(), Arc::clone(&schema));
+        // spill file variants: compression codec and read-buffer capacity
+        let comp = ["uncompressed", "lz4_frame", "zstd"][h % 3];
+        let mgr = SpillManager::new(env, metrics.clone(), Arc::clone(&schema))
+            .with_compression_type(comp.parse().unwrap())
+            .with_batch_read_buffer_capacity(1 + h % 3);
         let nfiles = rng.random_range(1..=3);
         let mut files = vec![];
         let mut err: Option<String> = None;
@@ -38,9 +46,18 @@ pub fn main() {
                 .map(|k| {
                     let a: Vec<Option<i64>> = (0..*k).map(|i| if i % 3 == 2 { None } else { Some(i as i64) }).collect();
                     let s: Vec<Option<&str>> = (0..*k).map(|i| if i % 2 == 0 { Some("ab") } else { None }).collect();
-                    RecordBatch::try_new(Arc::clone(&schema), vec![Arc::new(Int64Array::from(a)), Arc::new(StringArray::from(s))]).unwrap()
+                    // string views: short (inline) and long (buffer-backed) values, so view buffers are compacted on write
+                    let v: Vec<Option<String>> = (0..*k).map(|i| match i % 3 { 0 => Some("x".to_string()), 1 => Some("a-long-string-value-over-twelve-bytes".repeat(1 + i % 2)), _ => None }).collect();
+                    let full = RecordBatch::try_new(
+                        Arc::clone(&schema),
+                        vec![Arc::new(Int64Array::from(a)), Arc::new(StringArray::from(s)), Arc::new(StringViewArray::from(v))],
+                    )
+                    .unwrap();
+                    // sometimes a slice of a larger batch (offsets / shared buffers)
+                    if *k >= 3 && h % 2 == 1 { full.slice(1, *k - 1) } else { full }
                 })
                 .collect();
+            let sizes: Vec<usize> = batches.iter().map(|b| b.num_rows()).collect();
             let atomic = rng.random_range(0..2) == 0;
             let file = if atomic {
                 mgr.spill_record_batch_and_finish(&batches, "verif")
@@ -73,6 +90,7 @@ pub fn main() {
             }
         }
         res.push(json!({"id": format!("spill-{h}"), "files": files, "err": err.is_some(), "msg": err.unwrap_or_default(),
+                        "compression": comp,
                         "spilled_rows": metrics.spilled_rows.value(), "spill_count": metrics.spill_file_count.value()}));
     }
     util::write_ndjson(&out, &res);
